@@ -117,6 +117,14 @@ fn main() {
             }
             println!("end: rss {} MB", rss());
         }
+        "c14val" => {
+            // debugging aid: one value through the six routes of C14
+            mc::world::install_panic_hook_quiet();
+            let v: serde_json::Value = serde_json::from_str(&args[2]).expect("json value");
+            for (r, o) in mc::checks::c14::run_value(&v) {
+                println!("{r}: {}", o.map(|x| x.to_string()).unwrap_or("<none>".into()));
+            }
+        }
         "items" => {
             let id = &args[2];
             let tier = Tier::parse(args.get(3).map(|s| s.as_str()).unwrap_or("quick"));
